@@ -473,7 +473,10 @@ func (k Keeper) UnLiquidateLockedBorrows(ctx sdk.Context, appID, id uint64, dutc
 					updatedLockedVault.CurrentCollaterlisationRatio = newCalculatedCollateralizationRatio
 					updatedLockedVault.SellOffHistory = append(updatedLockedVault.SellOffHistory, dutchAuction.String())
 					k.SetLockedVault(ctx, updatedLockedVault)
-					err := k.UpdateLockedBorrows(ctx, updatedLockedVault)
+					// all or nothing: a second round that fails part-way must not leave its first writes behind
+					err := utils.ApplyFuncIfNoError(ctx, func(ctx sdk.Context) error {
+						return k.UpdateLockedBorrows(ctx, updatedLockedVault)
+					})
 					if err != nil {
 						ctx.Logger().Error("Error in UnLiquidateLockedBorrows first condition UpdateLockedBorrows in Liquidation, liquidate_borrow.go for ID %d", updatedLockedVault.LockedVaultId)
 						return nil
@@ -534,7 +537,10 @@ func (k Keeper) UnLiquidateLockedBorrows(ctx sdk.Context, appID, id uint64, dutc
 						updatedLockedVault.CurrentCollaterlisationRatio = newCalculatedCollateralizationRatio
 						updatedLockedVault.SellOffHistory = append(updatedLockedVault.SellOffHistory, dutchAuction.String())
 						k.SetLockedVault(ctx, updatedLockedVault)
-						err := k.UpdateLockedBorrows(ctx, updatedLockedVault)
+						// all or nothing: a second round that fails part-way must not leave its first writes behind
+						err := utils.ApplyFuncIfNoError(ctx, func(ctx sdk.Context) error {
+							return k.UpdateLockedBorrows(ctx, updatedLockedVault)
+						})
 						if err != nil {
 							ctx.Logger().Error("Error in UnLiquidateLockedBorrows second condition UpdateLockedBorrows in Liquidation, liquidate_borrow.go for ID %d", updatedLockedVault.LockedVaultId)
 							return nil
@@ -594,7 +600,10 @@ func (k Keeper) UnLiquidateLockedBorrows(ctx sdk.Context, appID, id uint64, dutc
 						updatedLockedVault.CurrentCollaterlisationRatio = newCalculatedCollateralizationRatio
 						updatedLockedVault.SellOffHistory = append(updatedLockedVault.SellOffHistory, dutchAuction.String())
 						k.SetLockedVault(ctx, updatedLockedVault)
-						err := k.UpdateLockedBorrows(ctx, updatedLockedVault)
+						// all or nothing: a second round that fails part-way must not leave its first writes behind
+						err := utils.ApplyFuncIfNoError(ctx, func(ctx sdk.Context) error {
+							return k.UpdateLockedBorrows(ctx, updatedLockedVault)
+						})
 						if err != nil {
 							ctx.Logger().Error("Error in UnLiquidateLockedBorrows third condition UpdateLockedBorrows in Liquidation, liquidate_borrow.go for ID %d", updatedLockedVault.LockedVaultId)
 							return nil
